@@ -957,25 +957,33 @@ def dispatch (F : Nat) (c : Core) (handler : String) (tok : CTok) (doxygen : Opt
   | "<lambda:Constant(None)>" => pure ()
   | other => unsupported ("dispatch handler " ++ other)
 
+/-- what the top-level loop hands to its next iteration: the pending doc text, and only when
+    the item just handled was attribute-like (`_keep_doxygen`) -/
+def carry (tok : CTok) (doxygen : Option String) : Option String :=
+  if Gen.keepDoxygen.contains tok.type then doxygen else none
+
+/-- one top-level item, starting at `tok` -/
+def topItem (F : Nat) (c : Core) (tok : CTok) (doxygen : Option String) : M Unit :=
+  match Gen.dispatchTable.lookup tok.type with
+  | some handler => dispatch F c handler tok doxygen
+  | none => parseDeclarations F c tok doxygen
+
+/-- one iteration of the `while True:` of `parse()` -/
+def mainBody (F : Nat) (c : Core) (doxygen : Option String) : M (Option String ⊕ Unit) := do
+  let doxygen ← (match doxygen with
+    | none => getDoxygen
+    | some d => pure (some d))
+  match (← tokenEofOk) with
+  | none => do
+    Prog.note none (Prog.pure ())
+    pure (.inr ())
+  | some tok => do
+    Prog.note (some tok) (Prog.pure ())
+    topItem F c tok doxygen
+    pure (.inl (carry tok doxygen))
+
 /-- the `while True:` of `parse()` -/
-def mainLoop (F : Nat) (c : Core) : M Unit :=
-  loopN F (none : Option String) (fun doxygen => do
-    let doxygen ← (match doxygen with
-      | none => getDoxygen
-      | some d => pure (some d))
-    match (← tokenEofOk) with
-    | none => do
-      Prog.note none (Prog.pure ())
-      pure (.inr ())
-    | some tok => do
-      Prog.note (some tok) (Prog.pure ())
-      match Gen.dispatchTable.lookup tok.type with
-      | some handler => do
-        dispatch F c handler tok doxygen
-        if Gen.keepDoxygen.contains tok.type then pure (.inl doxygen) else pure (.inl none)
-      | none => do
-        parseDeclarations F c tok doxygen
-        pure (.inl none))
+def mainLoop (F : Nat) (c : Core) : M Unit := loopN F (none : Option String) (mainBody F c)
 
 /-- the parser model: loop bound `F`, recursion depth `D` -/
 def parserProg (F D : Nat) : Prog Unit := mainLoop F (core F D)
